@@ -26,7 +26,7 @@ pub use crate::fx::rates::fxrate::FXRate;
 /// A multi-currency FX market deriving all crosses from a vector of `FXRate`s.
 #[pyclass(module = "rateslib.rs")]
 #[derive(Debug, Clone, Serialize, Deserialize, PartialEq)]
-#[serde(from = "FXRatesDataModel")]
+#[serde(try_from = "FXRatesDataModel")]
 pub struct FXRates {
     pub(crate) fx_rates: Vec<FXRate>,
     pub(crate) currencies: IndexSet<Ccy>,
@@ -40,10 +40,16 @@ struct FXRatesDataModel {
     currencies: IndexSet<Ccy>,
 }
 
-impl std::convert::From<FXRatesDataModel> for FXRates {
-    fn from(model: FXRatesDataModel) -> Self {
-        let base = model.currencies.first().unwrap();
-        Self::try_new(model.fx_rates, Some(*base)).expect("FXRates data model contains bad data.")
+impl std::convert::TryFrom<FXRatesDataModel> for FXRates {
+    type Error = String;
+
+    fn try_from(model: FXRatesDataModel) -> Result<Self, Self::Error> {
+        let base = model
+            .currencies
+            .first()
+            .ok_or_else(|| "FXRates data model contains bad data.".to_string())?;
+        Self::try_new(model.fx_rates, Some(*base))
+            .map_err(|_| "FXRates data model contains bad data.".to_string())
     }
 }
 
